@@ -63,7 +63,7 @@ package masks
 //@ // filters in place); with an empty writable set or an empty (non-nil) update mask it writes nothing at all
 //@ func (*FieldUpdater).Merge(dst, src)
 //@   requires recv != nil && !isnil(dst) && !isnil(src) && ref(dst) != ref(src)
-//@   requires [reset-mask-valid] recv.resetMask != nil ==> pathsvalid(recv.resetMask.Paths, dst)     // established by Validate
+//@   requires [SEQ] [reset-mask-valid] recv.resetMask != nil ==> pathsvalid(recv.resetMask.Paths, dst)     // established by Validate
 //@   ensures [empty-writable] old(recv.writableFields) != nil && len(old(recv.writableFields.Paths)) == 0 ==> msgval(dst) == old(msgval(dst)) && msgval(src) == old(msgval(src))
 //@   ensures [empty-mask] (old(recv.writableFields) == nil || len(old(recv.writableFields.Paths)) > 0) && old(recv.updateMask) != nil && len(old(recv.updateMask.Paths)) == 0 ==> msgval(dst) == old(msgval(dst))
 //@   ensures [frame] msgframe(dst, src)
